@@ -130,7 +130,10 @@ def late_reply_traces(ctx, rng, n, modes):
             k = rng.randint(0, 3)
             chunks = [(b'<%d.%d.%d>' % (i, j, c) + bytes(rng.randrange(256) for _ in range(rng.randint(0, 30)))).hex() for c in range(k)]
             ops.append(dict(api=rng.choice(['shell', 'exec_out', 'streaming_shell']), decode=False, cmd='c%d' % j, chunks=chunks, read_timeout_s=1.0))
-        ops[rng.randrange(len(ops) - 1)]['late'] = True
+        late = ops[rng.randrange(len(ops) - 1)]
+        late['late'] = True
+        if late['api'] != 'streaming_shell' and rng.random() < 0.6:
+            late['timeout_s'] = rng.choice([5.0, 30.0, 0.5])     # a whole-command budget that (mostly) outlasts the wait for the OKAY
         spec = dict(seed=ctx.seed * 77 + i, maxdata=4096, rid=rng.choice(['plus', 'random', 'same']), frag=rng.choice(['whole', 'random']),
                     lid0=rng.choice([None, 2 ** 32 - 2]), ops=ops)
         spec['stall'] = rng.choice(['raise', 'empty'])     # the transport's own timeout error, or empty reads until AdbTimeoutError
